@@ -23,6 +23,8 @@ func main() {
 	switch os.Args[1] {
 	case "engine":
 		err = cmdEngine(*in, *out)
+	case "resolve":
+		err = cmdResolve(*in, *out)
 	case "cache":
 		err = cmdCache(*in, *out, *names)
 	default:
